@@ -106,6 +106,7 @@ type Env struct {
 	ClockStart int64 `json:"clock_start,omitempty"`
 	RandSeed   int64 `json:"rand_seed,omitempty"`
 	Universal  bool  `json:"universal,omitempty"`
+	Slack      int   `json:"slack,omitempty"` // spare capacity of the root content handed to kit.NewJApiFromFile (files read through the disk get os.ReadFile's capacity)
 }
 
 // Case is everything needed to repeat one simulated execution exactly.
@@ -412,7 +413,18 @@ func execute(p *Project, o Opts, env Env, plan []simrt.PlannedFault, seed uint64
 	simrt.FS = d
 	total := uint64(p.totalBytes() + 200)
 	simrt.SetBudget(softFactor*total, hardFactor*total)
-	res := runLibrary(p.Root, p.content(p.absRoot()), o)
+	rc := p.content(p.absRoot())
+	if o.Entry == "file" {
+		// the root does not pass through the disk: faults planned for "call -1" hit its content here
+		for _, f := range plan {
+			if f.Call == -1 {
+				rc = simrt.ApplyContentFault(rc, f)
+			}
+		}
+	}
+	rootContent := make([]byte, len(rc), len(rc)+env.Slack)
+	copy(rootContent, rc)
+	res := runLibrary(p.Root, rootContent, o)
 	dec, _ := simrt.Decisions()
 	simrt.SetBudget(^uint64(0), ^uint64(0))
 	eh, en := simrt.EventHash()
@@ -507,7 +519,21 @@ func distinctList(m map[uint64]bool) []string {
 var traceAcc uint64 = 1469598103934665603
 var traceExecs uint64
 
+func init() {
+	if v := os.Getenv("SIM_DEBUG_EVENTS"); v != "" {
+		want := uint64(atoi(v))
+		simrt.DebugEvent = func(a, b, c uint64) {
+			if traceExecs == want {
+				fmt.Fprintf(os.Stderr, "EV %d %x %x\n", a, b, c)
+			}
+		}
+	}
+}
+
 func traceFold(vals ...uint64) {
+	if os.Getenv("SIM_DEBUG_TRACE") != "" {
+		fmt.Fprintf(os.Stderr, "TRACE exec %d vals %x\n", traceExecs, vals)
+	}
 	for _, v := range vals {
 		traceAcc = (traceAcc ^ v) * 1099511628211
 	}
